@@ -1,6 +1,7 @@
 import IrVerif.Lemmas.SerdeFields
 import IrVerif.Lemmas.SerdeWideSub
 import IrVerif.Lemmas.SerdeMergeSub
+import IrVerif.Lemmas.SerdeOutdupSub
 /-!
 C02 — ONNX proto -> IR -> proto is lossless (DESIGN.md section 5, C02).
 
@@ -43,6 +44,18 @@ into the output entry — the same "one Value carries one entry" normalisation a
 `canon p := merge (fold p)`; `C02_model_canon` / `C02_graph_canon` / `C02_function_alone_canon`:
 `WFproto (canon p) -> serialize (deserialize p) = norm (canon p)`; `C02_canon_subsumes`: these
 contain both the old and the stage-D theorems.
+
+Stage F (second deepening round): E4, several graph output entries with one name.  `WFproto` itself
+(`consOutputs` in `wfGraph`) now admits entries with one name when they are identical (distinct names
+is the special case, `C02_wf_outputs`; every theorem above therefore also covers such graphs).
+`outdup*` replaces every entry of a declared name by the union of the entries of that name
+(`C02_outdup_output`: type / shape / doc string of the last one, metadata united, later entry wins) —
+what `_deserialize_graph` does to the one `Value` they all address.  `C02_outdup_deserialize*`:
+`deserialize (outdup p) = deserialize p` for `WFproto (merge (outdup p))`, any nesting depth;
+`canonD p := merge (outdup (fold p))`; `C02_model_outdup` / `C02_graph_outdup` /
+`C02_function_alone_outdup` / `C02_node_alone_wide` / `C02_node_wide` / `C02_attr_wide`:
+`WFproto (canonD p) -> serialize (deserialize p) = norm (canonD p)`; `C02_outdup_subsumes`: on the
+domains of stage E / B `canonD` is `canon` / the identity.
 -/
 namespace IrVerif.Serde
 open IrVerif.Proto
@@ -662,5 +675,173 @@ example : wfModelX exampleModelCanon = true ∧ wfModelW exampleModelCanon = fal
 
 example : (normModelX exampleModelCanon).graph.outputs
     = [⟨"y", .sequence (.tensor (some 1) (some []) "") "SEQ", "out", [⟨"m", "1"⟩, ⟨"v", "1"⟩]⟩] := by decide
+
+/-! ## stage F: outdup (E4), `canonD = merge ∘ outdup ∘ fold`, stand-alone nodes and attributes widened -/
+
+/-- `WFproto` admits several graph output entries with one name exactly when they are identical; pairwise
+distinct output names (the domain of the first round) is the special case -/
+theorem C02_wf_outputs (l : List ValueInfoP) :
+    (consOutputs l = true ↔ ∀ a ∈ l, ∀ b ∈ l, a.name = b.name → a = b) ∧
+    (nodupStr (l.map (·.name)) = true → consOutputs l = true) :=
+  ⟨consOutputs_iff, fun h => consOutputs_iff.2 (consOut_of_nodup (nodupStr_iff.1 h))⟩
+
+/-- non-vacuity: a graph whose output `y` is listed twice with identical entries is inside `WFproto` -/
+example : wfGraph [] (.mk "g" "" [.mk ["x"] ["y"] "" "Relu" "" "" "" [] [] []] []
+    [⟨"x", .tensor (some 1) none "", "", []⟩]
+    [⟨"y", .tensor (some 1) none "", "d", [⟨"k", "v"⟩]⟩, ⟨"y", .tensor (some 1) none "", "d", [⟨"k", "v"⟩]⟩]
+    [] [] []) = true := by decide
+
+/-- what `outdup` does to an output entry `vo` (`S` = the names the graph declares, `outputs` = all output
+entries): nothing, or — the name is declared and every entry of that name is well formed — the entry
+becomes the union of the entries of its name: name kept, type / shape / doc string of the LAST entry
+of the name (serde.py:881-883 overwrites them entry by entry), the metadata dict = the dicts of the
+entries united by `dict.update` in order (later entry wins per key), and every entry of the name
+becomes that same entry (so their number and positions are kept) -/
+theorem C02_outdup_output (S : List String) (outputs : List ValueInfoP) (vo : ValueInfoP) :
+    outdupVI S outputs vo = vo ∨
+    (S.contains vo.name = true ∧ (sameName outputs vo).all wfVI = true ∧
+      ∃ last, findVI outputs vo.name = some last ∧
+        (outdupVI S outputs vo).name = vo.name ∧ (outdupVI S outputs vo).type = last.type ∧
+        (outdupVI S outputs vo).doc = last.doc ∧
+        dictOfEntries (outdupVI S outputs vo).metadata = unionMd (sameName outputs vo) ∧
+        ∀ w ∈ outputs, w.name = vo.name → outdupVI S outputs w = outdupVI S outputs vo) := by
+  by_cases ha : outdupApplies S outputs vo = true
+  · cases hf : findVI outputs vo.name with
+    | none => left; simp only [outdupVI, ha, if_true, hf]
+    | some last =>
+      right
+      have ha' := ha
+      simp only [outdupApplies, Bool.and_eq_true] at ha'
+      refine ⟨ha'.1, ha'.2, last, rfl, outdupVI_name S outputs vo, ?_, ?_, ?_, ?_⟩
+      · simp only [outdupVI, ha, if_true, hf]
+      · simp only [outdupVI, ha, if_true, hf]
+      · simp only [outdupVI, ha, if_true, hf, dictOfEntries_entriesOfDict _ (nodup_unionMd _)]
+      · intro w _ hn
+        have hs : sameName outputs w = sameName outputs vo := by simp only [sameName, hn]
+        have haw : outdupApplies S outputs w = true := by
+          simp only [outdupApplies, hs, hn] at ha ⊢; exact ha
+        simp only [outdupVI, ha, haw, if_true, hn, hf, hs]
+  · left; simp only [outdupVI, ha, if_false]; rfl
+
+/-- for every graph (any scope chain, so any nesting depth) with `WFproto (merge (outdup g))` the graph
+whose repeated output entries are united deserializes to the same IR -/
+theorem C02_outdup_deserialize_graph (outer : Scopes) (g : GraphP)
+    (h : wfGraph outer (mergeGraph (outdupGraph g)) = true) :
+    desGraph outer (outdupGraph g) = desGraph outer g :=
+  desGraph_outdup outer g h
+
+/-- the same for whole models -/
+theorem C02_outdup_deserialize (m : ModelP) (h : wfModel (mergeModel (outdupModel m)) = true) :
+    desModel (outdupModel m) = desModel m :=
+  desModel_outdup m h
+
+/-- a whole model in the third widened domain: `WFproto (canonD m) -> serialize (deserialize m) =
+norm (canonD m)`, `canonD = merge ∘ outdup ∘ fold` -/
+theorem C02_model_outdup (m : ModelP) (h : wfModelD m = true) :
+    ∃ x, desModel m = .ok x ∧ serModel x = .ok (normModelD m) := by
+  obtain ⟨x, h1, h2⟩ := model_rt (canonDModel m) h
+  rw [desModel_canonD m h] at h1
+  exact ⟨x, h1, h2⟩
+
+/-- in the form of the property statement -/
+theorem C02_model_norm_outdup (m : ModelP) (h : wfModelD m = true) :
+    ∃ x y, desModel m = .ok x ∧ serModel x = .ok y ∧ normModel y = normModelD m := by
+  obtain ⟨x, h1, h2⟩ := C02_model_outdup m h
+  exact ⟨x, normModelD m, h1, h2, normModel_idem (canonDModel m) h⟩
+
+/-- graphs in any scope chain -/
+theorem C02_graph_outdup (outer : Scopes) (ver : Option Int) (g : GraphP) (h : wfGraphD outer g = true)
+    (hver : verAllows ver = true ∨ graphHasDevCfg (canonDGraph g) = false) :
+    ∃ x, desGraph outer g = .ok x ∧ serGraph outer ver x = .ok (normGraphD g) := by
+  obtain ⟨x, h1, h2⟩ := graph_rt outer ver (canonDGraph g) h hver
+  rw [desGraph_canonD outer g h] at h1
+  exact ⟨x, h1, h2⟩
+
+/-- stand-alone functions -/
+theorem C02_function_alone_outdup (f : FunctionP) (h : wfFunctionAloneD f = true) :
+    ∃ x, desFunction f = .ok x ∧ serFunction none true x = .ok (normFunctionD true f) := by
+  obtain ⟨x, h1, h2⟩ := C02_function_alone (canonDFunction f) h
+  rw [desFunction_canonD 10 f h] at h1
+  exact ⟨x, h1, h2⟩
+
+/-- `from_proto(NodeProto)` / `to_proto` in the widened domain: a stand-alone node whose subgraphs (at
+any depth) carry repeated value_info / output entries, value_info for inputs or outputs, external
+tensors with shadowed keys -/
+theorem C02_node_alone_wide (n : NodeP) (h : wfNodeAloneD n = true) :
+    ∃ x tbl, desNodeAlone n = .ok (x, tbl) ∧
+      serNode [tableNames tbl] none x = .ok (normNode (canonDNode n)) := by
+  obtain ⟨x, tbl, h1, _, h2⟩ := node_alone_rt (canonDNode n) h
+  rw [desNodeAlone_canonD n h] at h1
+  exact ⟨x, tbl, h1, h2⟩
+
+/-- a node inside a scope (`C02_node`), widened -/
+theorem C02_node_wide (outer : Scopes) (vis : List ValueInfoP) (q : List AnnotP) (ver : Option Int)
+    (tbl : List IRValue) (n : NodeP) (h : wfNode (tableNames tbl :: outer) (canonDNode n) = true)
+    (hver : verAllows ver = true ∨ nodeHasDevCfg (canonDNode n) = false) :
+    ∃ x, desNode outer vis q tbl n = .ok (x, tbl) ∧
+      serNode (tableNames tbl :: outer) ver x = .ok (normNode (canonDNode n)) := by
+  obtain ⟨x, h1, h2, _⟩ := node_rt outer vis q ver tbl (canonDNode n) h hver
+  rw [desNode_canonD outer vis q tbl n h] at h1
+  exact ⟨x, h1, h2⟩
+
+/-- every attribute (`C02_attr`), widened: GRAPH / GRAPHS attributes whose subgraphs are in the widened
+domain, TENSOR(S) attributes with external entries that are shadowed or unspecified -/
+theorem C02_attr_wide (scopes : Scopes) (a : AttrP) (h : wfAttrD scopes a = true) :
+    rtAttr scopes a = .ok (normAttr (canonDAttr a)) := by
+  obtain ⟨x, h1, h2, _⟩ := attr_rt scopes none (canonDAttr a) h (Or.inl rfl)
+  rw [desAttr_canonD scopes a h] at h1
+  simp [rtAttr, h1, h2, bind, Except.bind]
+
+/-- the third widening contains the second and the original domain: on `WFproto` `canonD` is the
+identity, on `WFproto (merge (fold m))` it is `canon` -/
+theorem C02_outdup_subsumes (m : ModelP) :
+    (wfModel m = true → canonDModel m = m ∧ wfModelD m = true ∧ normModelD m = normModel m) ∧
+    (wfModelX m = true → canonDModel m = canonModel m ∧ wfModelD m = true ∧ normModelD m = normModelX m) := by
+  refine ⟨fun h => ?_, fun h => ?_⟩
+  · have hc := canonDModel_of_wf m h
+    exact ⟨hc, by rw [wfModelD, hc]; exact h, by rw [normModelD, hc]⟩
+  · have hc := canonDModel_of_wfX m h
+    exact ⟨hc, by rw [wfModelD, hc]; exact h, by rw [normModelD, hc, normModelX]⟩
+
+/-- field by field in the third widened domain -/
+theorem C02_keeps_outdup (m : ModelP) (h : wfModelD m = true) :
+    ∃ x q, desModel m = .ok x ∧ serModel x = .ok q ∧ ModelKeeps q (canonDModel m) ∧
+      Pointwise NodeKeeps (modelNodes q) (modelNodes (canonDModel m)) ∧
+      Pointwise GraphKeeps (modelGraphs q) (modelGraphs (canonDModel m)) := by
+  obtain ⟨x, q, h1, h2, h3⟩ := model_keeps (canonDModel m) h
+  rw [desModel_canonD m h] at h1
+  exact ⟨x, q, h1, h2, h3⟩
+
+/-- non-vacuity: `exampleModelCanon` (E2 E3 E5 E6 E7) with (E4) a second, different output entry for `y` —
+outside `wfModelX`, inside `wfModelD`; both entries come back as the union: type / doc of the last one,
+metadata of the `value_info` entry, the first and the second output entry united -/
+def exampleModelOutdup : ModelP :=
+  { exampleModelCanon with
+    graph := match exampleModelCanon.graph with
+      | .mk name doc nodes inits inputs outputs vis quant md =>
+        .mk name doc nodes inits inputs
+          (outputs ++ [⟨"y", .tensor (some 7) (some [⟨.value 3, ""⟩]) "", "again", [⟨"z", "9"⟩, ⟨"m", "5"⟩]⟩])
+          vis quant md }
+
+example : wfModelD exampleModelOutdup = true ∧ wfModelX exampleModelOutdup = false := by decide
+
+example : (normModelD exampleModelOutdup).graph.outputs
+    = [⟨"y", .tensor (some 7) (some [⟨.value 3, ""⟩]) "", "again", [⟨"m", "5"⟩, ⟨"v", "1"⟩, ⟨"z", "9"⟩]⟩,
+       ⟨"y", .tensor (some 7) (some [⟨.value 3, ""⟩]) "", "again", [⟨"m", "5"⟩, ⟨"v", "1"⟩, ⟨"z", "9"⟩]⟩] := by
+  decide
+
+/-- non-vacuity of the stand-alone forms: a node whose subgraph lists its output twice (E4) and carries a
+repeated value_info name (E6) -/
+def exampleNodeWide : NodeP :=
+  .mk ["a", ""] ["y"] "n" "If" "" "" ""
+    [.graph "then_branch" "" (.mk "g" "" [.mk ["a"] ["t"] "" "Relu" "" "" "" [] [] []] [] []
+      [⟨"t", .tensor (some 1) none "", "one", [⟨"k", "1"⟩]⟩, ⟨"t", .tensor (some 1) none "", "two", [⟨"j", "2"⟩]⟩]
+      [⟨"u", .tensor (some 1) none "", "", []⟩, ⟨"u", .tensor (some 7) none "", "", []⟩] [] [])] [] []
+
+example : wfNodeAloneD exampleNodeWide = true ∧ wfNodeAlone exampleNodeWide = false := by decide
+
+example : wfAttrD [["a", "y"]] (.graph "then_branch" "" (.mk "g" "" [.mk ["a"] ["t"] "" "Relu" "" "" "" [] [] []] [] []
+      [⟨"t", .tensor (some 1) none "", "one", [⟨"k", "1"⟩]⟩, ⟨"t", .tensor (some 1) none "", "two", [⟨"j", "2"⟩]⟩]
+      [] [] [])) = true := by decide
 
 end IrVerif.Serde
